@@ -19,7 +19,7 @@ RULE = ("cases = population size N (1..64) x weight pattern (ones, random, with 
         "single survivor, tiny) x container (restricted array / unrestricted [up,dn]) x seed; rank cases add R in 1..4 and a delay "
         "seed; non-trivial = weights not all equal or N >= 2 with at least two distinct sources selected or dropped; the "
         "offset expectation is integrated over every breakpoint interval wider than 1e-9")
-MIN_NONTRIVIAL = {"quick": 60, "thorough": 600}
+MIN_NONTRIVIAL = {"quick": 60, "thorough": 500}
 TIMEOUT = {"quick": 900, "thorough": 5400}
 ASSUMPTIONS = ["zeta strictly inside (0,1); breakpoint intervals narrower than 1e-9 are skipped and their width added to the tolerance",
                "multi-rank behaviour observed over vlib.fakempi (thread communicator), equal partitions",
